@@ -57,11 +57,12 @@ Proof. intros v. split; [apply norm_shape | split; [apply norm_class | apply nor
 
 (** Top-level metadata (ArrayRep::Full with a label, ArrayRep::Map with keys; the reader's Map and
     Full attempts under every element type, deny_unknown_fields): a labelled value comes back with
-    its label, a map with its keys (bytes keys as numbers, as MapKeys stores them) ... *)
+    its label, a map with its keys (bytes keys as numbers, as MapKeys stores them); the reader's
+    shape-against-data check (/repo 61c09df) is part of the model and is passed by every written value. *)
 Theorem C17_label_json_roundtrip : forall v l, wf_shape v = true -> repr_ok v = true -> (vdepth v <= 12)%nat ->
   exists j, mto_json true (MV v (Some l) None) = Some j /\ of_json true j = Some (MV (norm v) (Some l) None).
 Proof. exact label_json_roundtrip. Qed.
-Theorem C17_map_json_roundtrip : forall v k, wf_shape v = true -> repr_ok v = true -> map1_free v = true ->
+Theorem C17_map_json_roundtrip : forall v k, wf_shape v = true -> repr_ok v = true ->
   wf_shape k = true -> repr_ok k = true -> (vdepth v <= 12)%nat -> (vdepth k <= 11)%nat ->
   exists j, mto_json true (MV v None (Some k)) = Some j /\
     of_json true j =
@@ -72,12 +73,13 @@ Theorem C17_meta_json_roundtrip : forall m e j, meta_expect m = Some e -> mto_js
      match k with Some k => wf_shape k = true /\ repr_ok k = true /\ (vdepth k <= 11)%nat | None => True end end) ->
   of_json true j = Some e.
 Proof. exact meta_json_roundtrip. Qed.
-(** ... except a box array of shape [1] with map keys (OPEN defect, tree frozen): the program
-    `map [5] ≡□[1]` is written [[1],[5.0],[{"b":1}]] and reads back as a list of three boxes. *)
-Theorem C17_map1_refuted :
-  exists m j m', mto_json true m = Some j /\ of_json true j = Some m' /\ mval_same m' m = false /\
+(** Record of the defect repaired by /repo 55312e0 (a boxed value also read from a one-element
+    sequence): the program `map [5] ≡□[1]` was written [[1],[5.0],[{"b":1}]] and read back as a list of
+    three boxes.  The map theorem above no longer excludes box arrays of shape [1]. *)
+Theorem C17_map1_refuted_pre :
+  exists m j m', mto_json false m = Some j /\ of_json false j = Some m' /\ mval_same m' m = false /\
     m' = MV (VBox [3%nat] [VByte [] [1]; VNum [] [4617315517961601024]; VBox [] [VByte [] [1]]]) None None.
-Proof. exact map1_refuted. Qed.
+Proof. exact map1_refuted_pre. Qed.
 
 (** Records of the defects repaired by those commits (model of the representation before them): *)
 Theorem C17_value_json_refuted_string_pre :
@@ -125,7 +127,7 @@ Print Assumptions C17_value_json_roundtrip_exact.
 Print Assumptions C17_label_json_roundtrip.
 Print Assumptions C17_map_json_roundtrip.
 Print Assumptions C17_meta_json_roundtrip.
-Print Assumptions C17_map1_refuted.
+Print Assumptions C17_map1_refuted_pre.
 Print Assumptions C17_value_json_refuted_string_pre.
 Print Assumptions C17_value_json_refuted_complex_pre.
 Print Assumptions C17_value_json_refuted_nan_pre.
